@@ -280,3 +280,8 @@ class RunCtx:
 
     def note(self, *items):
         self.transcript.append(items)
+
+
+def unesc(s):
+    """inverse of esc()"""
+    return s.encode("ascii").decode("unicode_escape").encode("latin1")
